@@ -316,6 +316,15 @@ def resolve_uses(root, ids):
             cands.append(i)
         if cands:
             n["href"] = cands[n["ref"] % len(cands)]
+            # the reference is written as xlink:href (SVG 1.1), as href (SVG 2), or as both - then href is the one that
+            # counts and xlink:href (another element, or nothing that exists) is ignored
+            mode = (n["ref"] // 7) % 4
+            if mode == 2:
+                n["href_attr"] = "href"
+            elif mode == 3:
+                n["href_attr"] = "href"
+                other = cands[(n["ref"] + 1) % len(cands)]
+                n["href_decoy"] = other if other != n["href"] else "nothing-here"
         else:
             n["href"] = None
         del n["ref"]
@@ -333,6 +342,8 @@ def to_xml(doc, extra_head=""):
         for k, v in n["attrs"].items():
             parts.append(" %s=%s" % (k, quoteattr(str(v))))
         if n["tag"] == "use" and n.get("href"):
+            if n.get("href_decoy"):
+                parts.append(' xlink:href=%s' % quoteattr("#" + n["href_decoy"]))
             parts.append(' %s=%s' % (n.get("href_attr", "xlink:href"), quoteattr("#" + n["href"])))
         return "".join(parts)
 
